@@ -29,11 +29,7 @@ Definition cm_log (outs : list (Z + Z)) : op nat (list Z) Z Z :=
              | None => (inr (-99), S k)
              end.
 
-(* set-typed populations: what an ordered set keeps of a list *)
-Fixpoint ins (x : Z) (l : list Z) : list Z :=
-  match l with [] => [x] | y :: r => if x <? y then x :: l else if x =? y then l else y :: ins x r end.
-Definition sort_dedup (l : list Z) : list Z := fold_right ins [] l.
-
+(* set-typed populations: Generation.sort_dedup is what an ordered set keeps of a list (C09_set_population) *)
 (* one step of one Generation value: the population before it, what was asked, what was observed *)
 Definition step_ok (mode0 : Z) (pop : list Z) (fail_at : Z) (res final_t lg_t : tree) : option (bool * bool * bool * list Z) :=
     (* mode 100 + T: scored individuals, child maker through GenomeScorer - judged exactly like mode T *)
@@ -57,15 +53,15 @@ Definition step_ok (mode0 : Z) (pop : list Z) (fail_at : Z) (res final_t lg_t : 
         negb injected && Nat.eqb (length final) (length (norm children)) && Nat.eqb (length lg) n && Nat.eqb (length children) n
         && (if mode =? 0
             then (* serial: exactly what the model computes from the same per-call behaviour *)
-              match serial_next (cm_log outs) pop 0%nat with
-              | (inl cs, pop', k) => zl_eqb (norm cs) final && zl_eqb (norm pop') final && Nat.eqb k (length lg)
+              match serial_next_c (@length Z) norm (cm_log outs) pop 0%nat with
+              | (inl _, pop', k) => zl_eqb pop' final && Nat.eqb k (length lg)
               | _ => false
               end
             else perm_b final (norm children))
       | L [A 1; A e] =>
         injected && zl_eqb final pop && existsb (Z.eqb e) errors && (e =? fail_at)
         && (if mode =? 0
-            then match serial_next (cm_log outs) pop 0%nat with
+            then match serial_next_c (@length Z) norm (cm_log outs) pop 0%nat with
                  | (inr e', pop', k) => (e' =? e) && zl_eqb pop' final && Nat.eqb k (length lg)
                  | _ => false
                  end
